@@ -33,6 +33,7 @@ package jsonrpc2
 //@ monitor stateMu via (*Connection).updateInFlight [C01, C02, C03, C04, C05]
 //@   state s := &c.state
 //@   closeonly Connection.done, AsyncCall.ready, releaser.ch
+//@   freshcounter Connection.seq
 //@   protects fields(Connection.state), fields(Connection.done), fields(Response.ID), fields(Response.Error), fields(Response.Result), fields(AsyncCall.response), fields(AsyncCall.id), fields(AsyncCall.ready), maps("map[ID]*AsyncCall"), maps("map[ID]*incomingRequest"), allElems("*incomingRequest"), chanState
 //@   assume c.done != nil
 // in-flight counters stay far below the 64-bit range (they count live goroutines and messages)
@@ -69,6 +70,7 @@ package jsonrpc2
 //@   assume forall id ID :: {inDom(s.outgoingCalls, id)} id in s.outgoingCalls ==> rawGet(s.outgoingCalls, id).ready != ac.ready && rawGet(s.outgoingCalls, id) != ac
 //@   ensures @registered-or-refused (err == nil && (ac.id in s.outgoingCalls) && s.outgoingCalls[ac.id] == ac) || (err != nil && errIs(err, ErrClientClosing))
 //@   ensures @refused-when-shutting-down old(shutting(s)) ==> err != nil
+//@   ensures @refused-call-is-still-open err != nil ==> !closed(ac.ready) && ac.ready != nil
 
 // The reader's exit action records the (non-nil) read error.
 //@ func (*Connection).readIncoming$2 [C01]
@@ -99,3 +101,56 @@ package jsonrpc2
 //@   assume s.reading
 //@ func (*Connection).acceptRequest$2 [C02]
 //@   assume s.reading
+
+// ---------------------------------------------------------------------------------------------
+// Function-level contracts around the monitor
+// ---------------------------------------------------------------------------------------------
+
+// JSON encoding only allocates (library code): nothing that existed before is written. Assumed.
+//@ func marshalToRaw
+//@   trusted
+
+// retire completes a call exactly once: it panics when the call is already complete, so every caller must know the
+// call is still open. (Used inline at call sites; this unit checks the body.)
+//@ func (*AsyncCall).retire [C01]
+//@   inline
+//@   nopanic explicit
+//@   requires ac != nil && ac.ready != nil && !closed(ac.ready)
+//@   modifies *
+//@   ensures @completed closed(ac.ready) && ac.response == response
+
+// Call: draws exactly one id from the counter (incrementing it by one), and completes or registers the call exactly
+// once: none of the retire calls it makes can hit an already completed call.
+//@ func (*Connection).Call [C01]
+//@   nopanic explicit
+//@   track sync/atomic.AddInt64 as nextID
+//@   modifies *
+//@   requires c != nil
+//@   ensures @one-fresh-id calls(nextID) == 1 && callArg(nextID, 1, 1) == 1
+//@   ensures @returns-the-call result != nil
+
+// Notify: the slot taken in the pending-notification counter is given back on every path, and only if it was taken.
+//@ func (*Connection).Notify$2 [C05]
+//@   requires err == nil && !attempted
+//@   ensures @took-a-slot-iff-admitted attempted == (err == nil) && (attempted ==> s.outgoingNotifications == old(s.outgoingNotifications) + 1)
+//@        && (!attempted ==> s.outgoingNotifications == old(s.outgoingNotifications))
+//@ func (*Connection).Notify [C05]
+//@   track Notify$2 as takeSlot
+//@   track Notify$1$1 as giveBack
+//@   snapshot afterTake after call Notify$2
+//@   modifies *
+//@   requires c != nil
+//@   ensures @one-attempt calls(takeSlot) == 1
+//@   ensures @slot-given-back-iff-taken (at(afterTake, local(attempted)) ==> calls(giveBack) == 1) && (!at(afterTake, local(attempted)) ==> calls(giveBack) == 0)
+
+// write: a failed write marks the connection broken (write$2) only if the failure can be blamed neither on the
+// caller's context nor on a transport-level rejection; cancelled or rejected writes leave the session usable.
+//@ func (*Connection).write [C04]
+//@   track ctx.Err as ctxErr
+//@   track write$2 as breakConnection
+//@   track c.writer.Write as transportWrite
+//@   modifies *
+//@   requires c != nil
+//@   ensures @breaks-only-on-unattributable-failure calls(breakConnection) >= 1 ==> result != nil && calls(ctxErr) >= 1 && callResult(ctxErr, 1, 0) == nil && !errIs(result, ErrRejected)
+//@   ensures @success-never-breaks result == nil ==> calls(breakConnection) == 0
+//@   ensures @at-most-one-transport-write calls(transportWrite) <= 1
